@@ -272,9 +272,84 @@ def gen_long_chord(rng):
             "tolerance comparable to the deviations"], pts, tol
 
 
+def gen_cluster(rng):
+    """A few consecutive vertices inside a box about one tolerance wide, then the path leaves (and
+    perhaps comes back).  The box straddles the coordinate axes (origin), a lattice point or an
+    arbitrary point; vertices sit near its corners as often as inside, so consecutive ones are
+    0.7..1.4 tolerances apart - right where 'close enough to merge' short cuts (snapping to a grid,
+    comparing rounded coordinates) and the real distance test part ways, and where truncation toward
+    zero differs from floor."""
+    tol = rng.choice((1.0, 1.0, 0.5, 0.1, 2.75, 2.5, 0.01, rng.uniform(0.05, 5)))
+    where = rng.randrange(4)
+    if where <= 1:
+        cx, cy = 0.0, 0.0
+    elif where == 2:
+        cx, cy = float(rng.randint(-3, 3)), float(rng.randint(-3, 3))
+    else:
+        cx, cy = rng.uniform(-10, 10), rng.uniform(-10, 10)
+    lattice = where == 2 and rng.random() < 0.5
+    pts = []
+    for _rep in range(rng.randint(1, 3)):
+        if rng.random() < 0.5:
+            r = rng.uniform(3, 60) * tol
+            a = rng.uniform(0, 2 * math.pi)
+            pts.append([cx + r * math.cos(a), cy + r * math.sin(a)])
+        for _ in range(rng.randint(2, 4)):
+            if rng.random() < 0.6:
+                u = rng.choice((-1, 1)) * rng.uniform(0.25, 0.55)
+                v = rng.choice((-1, 1)) * rng.uniform(0.25, 0.55)
+            else:
+                u, v = rng.uniform(-0.6, 0.6), rng.uniform(-0.6, 0.6)
+            pts.append([cx + u * tol, cy + v * tol])
+        r = rng.uniform(3, 60) * tol
+        a = rng.choice((rng.uniform(0, 2 * math.pi), math.pi * 1.25, math.pi * 0.25, math.pi * 0.75, math.pi * 1.75))
+        pts.append([cx + r * math.cos(a), cy + r * math.sin(a)])
+    if lattice:
+        pts = [[round(x), round(y)] for x, y in pts]
+    return ["cluster about one tolerance wide (around the origin / a lattice point / anywhere), then away",
+            "tolerance comparable to the deviations",
+            "cluster straddles the coordinate axes" if where <= 1 else "cluster away from the axes"], pts, tol
+
+
+def gen_spike(rng):
+    """A, B, C with |AB| between 0.85 and 1.3 tolerances and C lying behind A (the path doubles back):
+    B's distance to the chord A-C is its distance to the END A, i.e. |AB| itself - the vertex may go
+    exactly when |AB| < tolerance.  The pair A, B straddles the origin, a lattice point, or any point;
+    directions favour the axes and the diagonals."""
+    tol = rng.choice((1.0, 1.0, 0.5, 0.1, 2.75, 2.5, 0.01, rng.uniform(0.05, 5)))
+    where = rng.randrange(4)
+    if where <= 1:
+        cx, cy = 0.0, 0.0
+    elif where == 2:
+        cx, cy = float(rng.randint(-3, 3)), float(rng.randint(-3, 3))
+    else:
+        cx, cy = rng.uniform(-10, 10), rng.uniform(-10, 10)
+    pts = []
+    if rng.random() < 0.3:
+        pts.append([cx + rng.uniform(-50, 50) * tol, cy + rng.uniform(-50, 50) * tol])
+    for _rep in range(rng.randint(1, 2)):
+        ang = rng.choice((0, 1, 2, 3, 4, 5, 6, 7)) * math.pi / 4 + rng.uniform(-0.08, 0.08) \
+            if rng.random() < 0.6 else rng.uniform(0, 2 * math.pi)
+        d = rng.uniform(0.85, 1.3) * tol
+        off = rng.uniform(0.4, 0.6)
+        ex, ey = math.cos(ang), math.sin(ang)
+        ax, ay = cx - off * d * ex, cy - off * d * ey
+        bx, by = ax + d * ex, ay + d * ey
+        back = ang + math.pi + rng.uniform(-0.7, 0.7)
+        r = rng.uniform(3, 40) * tol
+        pts += [[ax, ay], [bx, by], [ax + r * math.cos(back), ay + r * math.sin(back)]]
+    return ["spike about one tolerance long, path doubles back (distance to the chord END decides)",
+            "tolerance comparable to the deviations",
+            "cluster straddles the coordinate axes" if where <= 1 else "cluster away from the axes"], pts, tol
+
+
 def gen_path(rng):
     if rng.random() < 0.05:
         return gen_long_chord(rng)
+    if rng.random() < 0.08:
+        return gen_cluster(rng)
+    if rng.random() < 0.10:
+        return gen_spike(rng)
     c = rng.random()
     n = rng.choice((0, 1, 2, 3, 3, 4, 5, 6, 8, rng.randint(3, 30), rng.randint(10, 120), rng.randint(50, 400)))
     pts = []
@@ -380,12 +455,17 @@ def one_case(ctx, pts, tol):
 
 
 def run(ctx):
+    from .. import wtests
+    wtests.run(ctx)
     install(ctx)
     rng = ctx.rng
     n = ctx.budget(5_000, 90_000)
     for _ in range(n):
         if not ctx.alive():
             break
+        if rng.random() < 0.03:
+            from .. import noise
+            noise.burst(ctx, rng, exclude=('simplify', 'bezier'))
         if rng.random() < 0.01:
             from ..gen_stepper import failed_call
             failed_call(rng, rng.choice((plot_utils_mod().supersample, plot_utils_mod().points_in_tolerance)), 2)
@@ -435,11 +515,15 @@ def run(ctx):
                 "tolerance integer/lattice", "len=0", "len=1", "len=2", "len=3", "len=4..30", "len=>30",
                 "outcome:some vertices deleted", "outcome:nothing deleted"):
         ctx.need(cls, 50)
+    ctx.need("spike about one tolerance long, path doubles back (distance to the chord END decides)", 200)
+    ctx.need("cluster straddles the coordinate axes", 150)
+    ctx.need("cluster away from the axes", 150)
     ctx.need("monitor:supersample evaluated", 3_000)
     ctx.need("history: after a failed call (malformed arguments)", 20)
     ctx.need("monitor:points_in_tolerance evaluated", 10_000)
     ctx.need("monitor:agreement with max_dist_from_n_points evaluated", 10_000)
     ctx.need("monitor:deleted vertices checked", 10_000)
+    ctx.need("history: after calls to other library functions", 60)
     contracts.uninstall_all()
 
 
